@@ -211,7 +211,9 @@ func loadServiceConfigs(raw []byte, cluster, scheme string, configVars map[strin
 	}
 
 	for _, proxy := range configs {
-		key := fmt.Sprintf("%s_signing_key", proxy.Service)
+		// configVars keys are lower-cased when they are read from the environment (parseEnvironment),
+		// so a service name with upper-case letters has to be looked up lower-cased too
+		key := fmt.Sprintf("%s_signing_key", strings.ToLower(proxy.Service))
 		signingKey, ok := configVars[key]
 		if !ok {
 			continue
